@@ -952,12 +952,13 @@ def eliminate_join_marks(expression: exp.Expr) -> exp.Expr:
                     parent.pop()
 
         if query_from.alias_or_name in new_joins:
-            only_old_joins: set[str] = old_joins.keys() - new_joins.keys()
+            # Keep the order of the original joins (a set's order depends on the hash seed)
+            only_old_joins = [name for name in old_joins if name not in new_joins]
             assert len(only_old_joins) >= 1, (
                 "Cannot determine which table to use in the new FROM clause"
             )
 
-            new_from_name = list[str](only_old_joins)[0]
+            new_from_name = only_old_joins[0]
             query.set("from_", exp.From(this=old_joins[new_from_name].this))
 
         if new_joins:
